@@ -431,7 +431,8 @@ func checkBlock(ch *sim.Chain, b types.Block, bs consensus.V1BlockSupplement, la
 			return stats.Failf("C09/txn-at-a-time", "ValidateBlock says %q but validating the transactions one at a time says %q (%s)", first.verdict, verdict(ferr), label)
 		}
 		if ferr != nil && ferr.Error() != first.verdict {
-			return stats.Failf("C09/txn-at-a-time", "different rejection: block %q vs fold %q (%s)", first.verdict, ferr.Error(), label)
+			// the property speaks about the verdict, not the wording: a differently worded rejection is recorded only
+			rec.Label("txn-at-a-time:rejection-worded-differently")
 		}
 		rec.Label("txn-at-a-time:" + map[bool]string{true: "accepted", false: "rejected"}[accepted])
 	}
